@@ -14,7 +14,7 @@ from typing import (
 )
 
 from .._utils import lazy
-from ..exc import ExtensionError, SDLError
+from ..exc import ExtensionError, InvalidValue, SDLError
 from ..lang import ast as _ast
 from ..schema import (
     SPECIFIED_DIRECTIVES,
@@ -328,22 +328,27 @@ class ASTTypeBuilder:
             nodes=[type_def],
         )
 
+    def _default_value(self, node: _ast.InputValueDefinition, type_):
+        try:
+            return value_from_ast(node.default_value, lazy(type_))
+        except InvalidValue as err:
+            raise SDLError(
+                'Invalid default value for "%s" (%s)' % (node.name.value, err),
+                [node],
+            )
+
     def _build_argument(self, node: _ast.InputValueDefinition) -> Argument:
         type_ = self.build_type(node.type)
         kwargs = dict(description=_desc(node), node=node)
         if node.default_value is not None:
-            kwargs["default_value"] = value_from_ast(
-                node.default_value, lazy(type_)
-            )
+            kwargs["default_value"] = self._default_value(node, type_)
         return Argument(node.name.value, type_, **kwargs)  # type: ignore
 
     def _build_input_field(self, node: _ast.InputValueDefinition) -> InputField:
         type_ = self.build_type(node.type)
         kwargs = dict(description=_desc(node), node=node)
         if node.default_value is not None:
-            kwargs["default_value"] = value_from_ast(
-                node.default_value, lazy(type_)
-            )
+            kwargs["default_value"] = self._default_value(node, type_)
         return InputField(node.name.value, type_, **kwargs)  # type: ignore
 
     def _extend_object_type(self, object_type: ObjectType) -> ObjectType:
@@ -560,7 +565,7 @@ class ASTTypeBuilder:
         # by extensions.
         node = input_value.node
         if node is not None and node.default_value is not None:
-            return value_from_ast(node.default_value, extended_type)
+            return self._default_value(node, extended_type)
         return input_value._default_value
 
     def _extend_argument(self, argument: Argument) -> Argument:
